@@ -125,6 +125,7 @@ func (p *Packet) Write(w io.Writer, channelConfig []int) error {
 		return err
 	}
 
+	verifPoint("rtp.write.prefix-done", w)
 	// 写包数据部分
 	if _, err := w.Write(p.Data); err != nil {
 		return err
